@@ -128,18 +128,25 @@ func wrap(e ty) []ty {
 // ---- values ----
 
 var (
-	strs   = []string{"", "a", "中 b", "x-y_z.1"}
-	mapKs  = []string{"k", "中", "k-2"}
-	mapKi  = []int64{1, -2, 30}
-	f64s   = []float64{0, 1.5, -0.25, 1e6}
-	f64alt = []float64{123456.789, -1e-3, 0.1, 65536}
+	strs = []string{"", "a", "中 b", "x-y_z.1"}
+	// characters that need no escape in JSON but are unusual: DEL, a non-printable supplementary-plane rune, U+2028,
+	// HTML-significant characters, emoji, a 2-byte rune (profiles >= 4)
+	strsAlt = []string{"a\u007fb", "\U000E0001", "é😀\u2028", "<a&b>'"}
+	mapKs   = []string{"k", "中", "é\u007f\U000E0001"}
+	mapKi   = []int64{1, -2, 30}
+	f64s    = []float64{0, 1.5, -0.25, 1e6}
+	f64alt  = []float64{123456.789, -1e-3, 0.1, 65536}
 )
 
 func val(t reflect.Type, p int) reflect.Value {
 	v := reflect.New(t).Elem()
 	switch t.Kind() {
 	case reflect.String:
-		v.SetString(strs[p%4])
+		if p >= 4 {
+			v.SetString(strsAlt[p%4])
+		} else {
+			v.SetString(strs[p%4])
+		}
 	case reflect.Bool:
 		v.SetBool(p%4 == 1 || p%4 == 2)
 	case reflect.Int, reflect.Int8, reflect.Int16, reflect.Int32, reflect.Int64:
